@@ -282,6 +282,15 @@ Theorem C08_immediate_exact :
 Proof. reflexivity. Qed.
 Print Assumptions C08_immediate_exact.
 
+(* ... also when the node is scripted per request: its answer to the one request that carries the
+   whole payload decides. *)
+Theorem C08_immediate_node_exact :
+  forall nd len d r, call_beh nd (0, len) = BReply d r ->
+    immediate_node nd len = if len =? 0 then ([], false)
+                            else ([(0, len)], match r with RAccept => true | RError _ => false end).
+Proof. intros nd len d r H. unfold immediate_node. rewrite H. reflexivity. Qed.
+Print Assumptions C08_immediate_node_exact.
+
 (* The start order accepted by the correspondence check is a valid schedule of the theorems. *)
 Theorem C08_checked_order_is_valid : forall order n, is_perm order n = true -> valid_order n order.
 Proof.
@@ -426,6 +435,19 @@ Theorem C08_returns_by_timeout_whatever_the_callers_deadline :
     /\ (fst o = false -> guard_ok (i_kind inp) (i_len inp) = true -> snd o = i_timeout inp).
 Proof. exact dl_returns_by_timeout. Qed.
 Print Assumptions C08_returns_by_timeout_whatever_the_callers_deadline.
+
+(* A client monitor that takes m ms per ClientOperation call (run_mon: every answer counted m ms
+   later) changes neither the timeout bound nor that a reported failure returns exactly then. *)
+Theorem C08_returns_by_timeout_whatever_the_monitor_takes :
+  forall m inp order o,
+    0 < i_timeout inp -> In o (snd (run_mon m inp order)) ->
+    snd o <= i_timeout inp
+    /\ (fst o = false -> guard_ok (i_kind inp) (i_len inp) = true -> snd o = i_timeout inp).
+Proof.
+  intros m inp order o HT Hin. unfold run_mon in Hin.
+  exact (dl_returns_by_timeout None (slow_by m inp) order o HT Hin).
+Qed.
+Print Assumptions C08_returns_by_timeout_whatever_the_monitor_takes.
 
 Theorem C08_always_returns_whatever_the_callers_deadline :
   forall cl inp order, snd (run_dl cl inp order) <> [].
